@@ -27,6 +27,12 @@ def baseline_names():
         return set(json.load(fh)['functions'])
 
 
+def baseline_nested():
+    p = os.path.join(HERE, 'baseline_names.json')
+    with open(p) as fh:
+        return set(json.load(fh).get('nested', []))
+
+
 def is_private(name):
     return name.startswith('_') and not (name.startswith('__') and name.endswith('__'))
 
@@ -330,6 +336,9 @@ def _simple_arg(a):
     if isinstance(a, ast.Constant):
         return True
     if isinstance(a, ast.Name):
+        return True
+    # a named constant (signals.SUBSCRIBE_META_SIGNAL, return_status.HANDLED, Class.QUEUE_SIZE): reading it commutes with everything
+    if isinstance(a, ast.Attribute) and a.attr.isupper() and _pure(a):
         return True
     return False
 
@@ -813,3 +822,84 @@ def specialise_fresh_factories(modules, baseline=None):
             elif done[k]:
                 log.append(('%s.%s' % (m.name, k), [], 'partly specialised (%d of %d uses)' % (done[k], uses[k])))
     return log
+
+
+# ----------------------------------------------------------------------------------------------- closures lifted to methods
+
+def nest_lifted_closures(modules, baseline=None, nested=None):
+    """a fresh private method whose name (without leading underscores) is that of a function that was nested in its only caller in the baseline tree
+    is put back as a nested function of that caller (the inverse of "lift a closure to a method"): `self._helper(a)` -> `helper(a)`, the helper's
+    self parameter becomes the caller's self through the closure"""
+    baseline = baseline if baseline is not None else baseline_names()
+    nested = nested if nested is not None else baseline_nested()
+    log = []
+    for m in modules.values():
+        for cls in [st for st in m.tree.body if isinstance(st, ast.ClassDef)]:
+            for hdef in [s2 for s2 in cls.body if isinstance(s2, ast.FunctionDef)]:
+                q = '%s.%s.%s' % (m.name, cls.name, hdef.name)
+                if q in baseline or not is_private(hdef.name):
+                    continue
+                h = Helper(q, m, cls, hdef)
+                if (hdef.decorator_list and not h.static) or hdef.args.vararg or hdef.args.kwarg:
+                    continue
+                plain = hdef.name.lstrip('_')
+                callers = [c for c in cls.body if isinstance(c, ast.FunctionDef) and c is not hdef and
+                           ('%s.%s.%s.%s' % (m.name, cls.name, c.name, plain) in nested or '%s.%s.%s.%s' % (m.name, cls.name, c.name, hdef.name) in nested)]
+                if len(callers) != 1:
+                    continue
+                caller = callers[0]
+                calls, other = _references(modules, h)
+                selfn = caller.args.args[0].arg if caller.args.args else None
+                inside = [n for n in ast.walk(caller) if isinstance(n, ast.Call) and isinstance(n.func, ast.Attribute) and n.func.attr == hdef.name
+                          and isinstance(n.func.value, ast.Name) and n.func.value.id in (selfn, cls.name)]
+                if other or not inside or len(inside) != calls:
+                    continue
+                if any(isinstance(n, ast.Name) and n.id == plain for n in ast.walk(caller)):
+                    continue            # the plain name is taken in the caller
+                new = copy.deepcopy(hdef)
+                new.name = plain
+                new.decorator_list = []
+                if not h.static:
+                    hs = new.args.args[0].arg
+                    new.args.args = new.args.args[1:]
+                    if hs != selfn:
+                        new.body = [Rename({hs: selfn}, {}).visit(x) for x in new.body]
+                for c in inside:
+                    c.func = ast.copy_location(ast.Name(id=plain, ctx=ast.Load()), c.func)
+                pos = 1 if (caller.body and isinstance(caller.body[0], ast.Expr) and isinstance(caller.body[0].value, ast.Constant) and isinstance(caller.body[0].value.value, str)) else 0
+                caller.body.insert(pos, new)
+                cls.body.remove(hdef)
+                ast.fix_missing_locations(caller)
+                log.append((q, [caller.name], 'nested back into its caller'))
+    return log
+
+
+# ----------------------------------------------------------------------------------------------- conditional expressions at statement level
+
+class _IfExpToIf(ast.NodeTransformer):
+    """`t = a if c else b` -> `if c: t = a else: t = b`;  `return a if c else b` -> `if c: return a else: return b`  (same evaluation order)"""
+
+    def _split(self, st, mk):
+        v = st.value
+        new = ast.If(test=v.test, body=[mk(v.body)], orelse=[mk(v.orelse)])
+        ast.copy_location(new, st)
+        ast.fix_missing_locations(new)
+        return self.visit(new)
+
+    def visit_Assign(self, st):
+        self.generic_visit(st)
+        if isinstance(st.value, ast.IfExp) and not any(isinstance(n, ast.Call) for t in st.targets for n in ast.walk(t)):
+            return self._split(st, lambda v: ast.copy_location(ast.Assign(targets=copy.deepcopy(st.targets), value=v), st))
+        return st
+
+    def visit_Return(self, st):
+        self.generic_visit(st)
+        if isinstance(st.value, ast.IfExp):
+            return self._split(st, lambda v: ast.copy_location(ast.Return(value=v), st))
+        return st
+
+
+def split_conditional_expressions(modules):
+    for m in modules.values():
+        m.tree = _IfExpToIf().visit(m.tree)
+        ast.fix_missing_locations(m.tree)
